@@ -165,7 +165,17 @@ def count_from_entry_rule(chk, wi, wfl, ls):
             if rhs[0] == "call" and rhs[2].is_(r"Compress::total_in$") and lhs[0] == "call" and lhs[2].is_(r"Compress::total_in$"):
                 ok = rhs[1] not in body
                 why = "the count is measured against total_in() read INSIDE the loop (line %d): only the last round is reported, earlier rounds are re-submitted by write_all" % rhs[2].line
-        elif d[0] == "multi" and any(x[1][0] == "bin" and x[1][1].startswith("Add") and x[0] in body for x in d[2]):
-            ok = True   # an accumulator updated in the loop
+        elif d[0] == "multi":
+            # an accumulator: some definition inside the loop is `acc + x` (checked add: `t = AddWithOverflow(acc, x); acc = t.0`)
+            def is_add(x):
+                rv_ = x[1]
+                if rv_[0] == "bin" and rv_[1].startswith("Add"):
+                    return True
+                if rv_[0] == "use" and "p" in rv_[1] and rv_[1]["p"][1:] == [".0"]:
+                    return any(y[1][0] == "bin" and y[1][1].startswith("Add") for y in defs.get(rv_[1]["p"][0], []))
+                return False
+            inits_zero = all(is_add(x) or (x[1][0] == "use" and "p" not in x[1][1] and x[1][1].get("v") == 0) for x in d[2])
+            ok = inits_zero and any(x[0] in body and is_add(x) for x in d[2])
+            why = "the returned count is a variable that is neither `total_in() - <start>` nor a zero-initialised sum accumulated inside the loop"
         chk.ob("count-measured-from-entry", "write_inner Ok@%d" % ln, ok, why, "%s:%d" % (wi.file, ln), key="count-from-entry|write_inner")
     chk.floor("write_inner: Ok(count) returns", n, 2)
